@@ -678,3 +678,110 @@ func NormString(s string) string {
 	}
 	return sb.String()
 }
+
+// JSETBalloon reports the known memory/time balloon: a JSET whose JSON path has
+// a numeric component >= 1000000 (the array is padded with nulls up to that
+// index while the write lock is held).
+func JSETBalloon(args []string) bool {
+	if len(args) < 4 || !strings.EqualFold(args[0], "JSET") {
+		return false
+	}
+	for _, comp := range strings.Split(args[3], ".") {
+		if comp == "" {
+			continue
+		}
+		digits := true
+		for _, c := range comp {
+			if c < '0' || c > '9' {
+				digits = false
+				break
+			}
+		}
+		if !digits {
+			continue
+		}
+		comp = strings.TrimLeft(comp, "0")
+		if len(comp) > 7 || (len(comp) == 7 && comp >= "1000000") {
+			return true
+		}
+	}
+	return false
+}
+
+// SplitCommands is a best-effort decoder of a raw request stream into commands
+// (RESP arrays, native "$n line", inline lines); used only to name the command
+// behind a wedge found with byte-level inputs.
+func SplitCommands(raw []byte) [][]string {
+	var out [][]string
+	b := raw
+	for len(b) > 0 && len(out) < 64 {
+		switch b[0] {
+		case '*':
+			e := crlf(b, 0)
+			if e < 0 {
+				return out
+			}
+			n, err := strconv.Atoi(string(b[1:e]))
+			if err != nil || n < 0 || n > 1024 {
+				b = b[e+2:]
+				continue
+			}
+			b = b[e+2:]
+			var args []string
+			okc := true
+			for i := 0; i < n; i++ {
+				if len(b) == 0 || b[0] != '$' {
+					okc = false
+					break
+				}
+				e := crlf(b, 0)
+				if e < 0 {
+					okc = false
+					break
+				}
+				l, err := strconv.Atoi(string(b[1:e]))
+				if err != nil || l < 0 || e+2+l+2 > len(b) {
+					okc = false
+					break
+				}
+				args = append(args, string(b[e+2:e+2+l]))
+				b = b[e+2+l+2:]
+			}
+			if okc && len(args) > 0 {
+				out = append(out, args)
+			}
+			if !okc {
+				if e := crlf(b, 0); e >= 0 {
+					b = b[e+2:]
+				} else {
+					return out
+				}
+			}
+		default:
+			e := crlf(b, 0)
+			line := b
+			if e >= 0 {
+				line, b = b[:e], b[e+2:]
+			} else {
+				b = nil
+			}
+			s := string(line)
+			if len(s) > 0 && s[0] == '$' {
+				if sp := strings.IndexByte(s, ' '); sp > 0 {
+					s = s[sp+1:]
+				}
+			}
+			if f := strings.Fields(strings.NewReplacer(`"`, "", "+", " ").Replace(s)); len(f) > 0 {
+				if (f[0] == "GET" || f[0] == "POST") && len(f) > 1 && strings.HasPrefix(f[1], "/") {
+					f = f[1:]
+					f[0] = strings.TrimPrefix(f[0], "/")
+					if f[len(f)-1] == "HTTP/1.1" {
+						f = f[:len(f)-1]
+					}
+				}
+				out = append(out, f)
+			}
+		}
+	}
+	return out
+}
